@@ -132,3 +132,8 @@ package js
 //@   ensures[T,C02] @tile: result0 != ErrorToken ==> sameMem(result1, l.r.buf[old(l.r.pos):l.r.pos]) && cap(result1) == len(result1) && len(result1) > 0 && l.r.start == l.r.pos
 //@   ensures[T,C02] @errtok: result0 == ErrorToken && result1 != nil ==> sameMem(result1, l.r.buf[old(l.r.pos):l.r.pos]) && cap(result1) == len(result1) && l.r.start == l.r.pos
 //@   ensures[T,C02] @frame: sameBytes()
+
+//@ func Lexer.Err
+//@   requires[S] l != nil && l.r != nil && bufInv(l.r)
+//@ func NewLexer
+//@   ensures[S]  result != nil && result.r == r && len(result.templateLevels) == 0
